@@ -35,6 +35,9 @@ void h_permute_asm(void)
     ascon_state_t *st;
     uint8_t r = nondet_u8();
     unsigned r0 = VERIF_IDX(r);
+#if defined(VERIF_FIRST)
+    __CPROVER_assume(r == VERIF_FIRST);       /* one group per start round (loop-shaped backends) */
+#endif
 #if defined(VERIF_BACKEND_FREE)
     ascon_backend_free(st);
 #else
